@@ -154,7 +154,7 @@ Theorem C17_watch_limit : forall C f pos o X, full (pend X) = true -> wp_cpu C =
 Proof. exact watch_limit. Qed.
 Print Assumptions C17_watch_limit.
 
-(* -W var:NAME, one thread: for EVERY sequence of values, with the queue drained between the hooks, the
+(* -W var:NAME (a variable of 1, 2, 4 or 8 bytes), one thread: for EVERY sequence of values, with the queue drained between the hooks, the
    events generated are exactly the changes of the value w.r.t. the thread's previous observation
    (v0 = the copy made at the thread's first hook) *)
 Theorem C17_watch_var_iff_changed : forall C, wp_var C = true -> forall l X v0,
@@ -167,6 +167,16 @@ Theorem C17_watch_var_example :
   var_values (wrun var_cfg [(100, ov 3); (110, ov 4); (120, ov 3)] var_x0) = [4; 3].
 Proof. exact var_watch_example. Qed.
 Print Assumptions C17_watch_var_example.
+
+(* FALSE across threads (known finding watch-var-once-per-process): the global watch item makes a value reported
+   once per process - threads 0 and 1 both observe 3 at entry and 4 at exit (multi-thread machine xexec_mt:
+   per-thread machines, shared item): thread 0 reports the change, thread 1, whose own previous observation
+   was 3, stays silent *)
+Theorem C17_watch_var_threads_refuted :
+  map (fun D => ids (xout (snd D))) (fst (xexec_mt var_cfg mt_run [] false 0)) =
+  [[(0, 100); (C17_EVENT_ID_WATCH_VAR, 199); (0, 200)]; [(0, 105); (0, 205)]].
+Proof. exact watch_var_threads_refuted. Qed.
+Print Assumptions C17_watch_var_threads_refuted.
 
 (* before aa8baff the thread's copy was never updated: 3 -> 4 -> 3 reported only the first change *)
 Theorem C17_watch_var_legacy_refuted :
